@@ -545,6 +545,8 @@ WILL_REFUSE = f"(subprotocol not in {DX}._factories) and not allows({DX}._expect
 OTHERS_KEPT = ("forall(lambda k: k == scid or ((k in self._open_subchannels) == (k in old(self._open_subchannels)) and "
                "self._open_subchannels[k] == old(self._open_subchannels)[k]))")
 
+NEWSC0 = "new_obj('SubChannel', 0)"
+
 INB_CONTRACTS = [
     Contract(f"{INB}:Inbound.handle_open", props=[PROP], params={"scid": "int", "subprotocol": "str"},
              self_fields=INB_FIELDS, modifies=["_open_subchannels"],
@@ -565,9 +567,13 @@ INB_CONTRACTS = [
                   f"old(scid in self._open_subchannels) or old({WILL_REFUSE}) or "
                   "(len(bcall_names()) == 0 and scid in self._open_subchannels and "
                   "self._open_subchannels[scid] == new_obj('SubChannel', 0))"),
+                 ("a-held-subchannel-starts-unconnected-with-nothing-queued",
+                  f"implies(news('SubChannel') == 1 and not old(subprotocol in {DX}._factories) and not old({WILL_REFUSE}), "
+                  f"in_state({NEWSC0}, 'unconnected') and sc_inv({NEWSC0}) and {NEWSC0}._protocol is None and "
+                  f"len({NEWSC0}._pending_remote_data) == 0 and not {NEWSC0}._pending_remote_close)"),
                  ("other-subchannels-untouched", OTHERS_KEPT)],
              note="the demultiplexer is used through its contract (_got_open): refusal condition and effect are those proved "
-                  "there; SubChannel construction is a boundary event here"),
+                  "there; SubChannel(...) runs the real attrs construction + __attrs_post_init__ (regf_real_subchannel)"),
     Contract(f"{INB}:Inbound.handle_data", props=[PROP], params={"scid": "int", "data": "bytes"},
              self_fields=INB_FIELDS, modifies=[],
              ensures=[("unknown-subchannel-dropped", "old(scid in self._open_subchannels) or len(bcall_names()) == 0"),
@@ -802,6 +808,13 @@ def recording_boundary_ret(it, recv, meth, args, kwargs, fr):
     return ret
 
 
+def regf_real_subchannel():
+    """regf(), but SubChannel(...) is really constructed (Inbound.handle_open)"""
+    reg = regf()
+    reg.ext_models["new:SubChannel"] = real_subchannel
+    return reg
+
+
 def regf_endpoints():
     from . import c11, deferred
     reg = base_registry()
@@ -1025,7 +1038,8 @@ def stable_fields_task(tier, seed):
 
 
 def tasks():
-    out = [ContractTask(c, regf_wiring if c in WIRING_CONTRACTS else regf_endpoints if c in MGR_FWD_CONTRACTS + EP_CONTRACTS else regf)
+    out = [ContractTask(c, regf_wiring if c in WIRING_CONTRACTS else regf_endpoints if c in MGR_FWD_CONTRACTS + EP_CONTRACTS else
+                        regf_real_subchannel if c.target.endswith("Inbound.handle_open") else regf)
            for c in CONTRACTS]
     from pyvc.runner import FuncTask
     out.append(FuncTask("endpoint-stable-fields", stable_fields_task, True, "frame"))
@@ -1065,8 +1079,11 @@ ASSUMPTIONS = [
     "connect() may end in AssertionError AFTER its OPEN was queued, exactly when a subchannel is already open under the id it has just "
     "allocated (Inbound.handle_open does not check the parity of a peer-chosen id); stated as connect.ensures_raise[AssertionError], "
     "not judged a violation of the statement (a conforming peer only uses ids of its own parity: C11 role lemmas)",
-    "inside connect() the SubChannel is the real object (real attrs construction + __attrs_post_init__, attrs validators dropped); "
-    "inside Inbound.handle_open its construction is still a boundary event (opaque handle)",
+    "where a SubChannel is built (SubchannelConnectorEndpoint.connect, Inbound.handle_open) the real attrs construction + "
+    "__attrs_post_init__ run (attrs validators dropped; the machine starts in its initial state; ghost __id = the handle under "
+    "which the tables of opaque[SubChannel] hold it). What SubchannelDemultiplex._connect does to a subchannel handed to it is "
+    "stated there as calls on the handle (_set_protocol, _deliver_queued_data), so handle_open says nothing about the new "
+    "subchannel's state when a listener was present",
     "Manager.send_open is verified with Outbound as a boundary object: one build_record(Open, scid, subprotocol), then "
     "queue_and_send_record of exactly the record handed back; what Outbound does with it is C10",
     "make_side() is modelled as returning some str in Dilator.dilate (its value plays no role in the wiring obligation)",
